@@ -13,6 +13,11 @@ import numpy as _np
 from pgv import sx
 
 
+class NumpyContractError(ValueError):
+    """an exception numpy itself raises for this call (re-stated here because the re-stated routine stands in for numpy's)"""
+    _pgv_contract = True
+
+
 def _is_sym(x):
     return isinstance(x, (sx.SymReal, sx.SymBool, sx.NaNValue))
 
@@ -162,6 +167,11 @@ class NumpyProxy:
             if tgt.ndim == 0:
                 return tgt[()]
             return tgt
+        if not copy and not isinstance(x, _np.ndarray) and (_is_sym(x) or isinstance(x, (int, float, _np.generic))) and self._mode != 'sympy':
+            # numpy >= 2: nan_to_num(<scalar>, copy=False) raises -- the scalar cannot be converted to an array without a copy
+            # (arithmetic on 0-d arrays gives scalars, so this is where a 0-d / scalar argument ends up)
+            if _np.lib.NumpyVersion(_np.__version__) >= '2.0.0':
+                raise NumpyContractError("Unable to avoid copy while creating an array as requested.")
         if isinstance(x, sx.NaNValue):
             return repl(x)
         if _is_sym(x) or (self._mode == 'sympy'):
